@@ -45,7 +45,7 @@ CHECKS = {
 "C04": ("pipeline-sim",
   "same executions as C01 with a chain-focused generator; oracle = reference model of the authenticator fallback chain over simulator-known outcome classes (none / ok / rejected / remote fault), incl. which remote parties may be contacted",
   "Seeded search over authenticator chains (all six types, catalogue- and rule-level allow_fallback_on_error), requests with none/valid/invalid/malformed credentials per kind and transport faults of the identity-provider parties; the winning subject, a failed chain and 'no later authenticator's party contacted after the chain stopped' are judged against the reference model. Evidence over sampled executions, not a proof.",
-  "Trusts: each authenticator kind reads its own credential carrier so its class is known; malformed credentials are not judged; a remote fault counts like a rejection.",
+  "Trusts: each authenticator kind reads its own credential carriers so its class is known; malformed credentials are not judged; a remote fault counts like a rejection; the converse (the chain yields a subject, yet the answer is an authentication error) is judged only for requests without any drawn fault and rules without error handlers of their own.",
   "DESIGN.md section 3 C04"),
 "C16": ("signer-sched",
   "seeded cooperative scheduler over lock shims and inserted yield points in jwt_signer.go / jwt_finalizer.go, Go race detector, simulated watcher and step-wise disk writes; ghost-state oracle (published key-set versions observed between steps) over the recorded history",
@@ -55,17 +55,17 @@ CHECKS = {
 "C17": ("mech-sim",
   "seeded variant-creation / execution histories against the real catalogue with a fresh-catalogue reference (behavioural signatures), plus concurrent executions under the seeded scheduler and the race detector",
   "Seeded search over histories of rule-level variant creations (every documented override of every mechanism type) and executions; the observable behaviour of every instance (remote requests, decision, headers, cookies, outputs, flags; without cache, with two probe requests in alternating order, and outputs under a shared real cache) is re-derived after every operation and compared with the same configuration built alone in a fresh catalogue; 2-4 concurrent request tasks then create and execute prototypes and variants under the race detector (first use included). Evidence over sampled histories and schedules, not a proof.",
-  "Trusts: behaviour, not struct contents, is compared; interleavings at remote calls and before executions plus the happens-before race detector; token time claims normalised.",
+  "Trusts: behaviour is compared (plus a structural digest of heimdall-owned plain data for 'execution does not change the mechanism'); the overlay reference (variant with plain top-level overrides or values = prototype of a catalogue carrying them) covers scalar overrides and values only; interleavings at remote calls and before executions plus the happens-before race detector; token time claims normalised.",
   "DESIGN.md section 3 C17"),
 "C18": ("provider-sim",
   "deterministic simulation of the four rule providers against simulated sources with fault plans (fake clock for http_endpoint and cloud_blob incl. real gocron; event-level simulation for file_system; real client-go informer over an in-memory API server for kubernetes); oracle = legality/exactly-once state machine per source + possible-state model folded over what the provider observed + convergence at quiescence",
   "Seeded search over source histories and fetch outcomes per provider (content new/unchanged/invalid/empty/removed/renamed, transport and API faults, duplicated/delayed/coalesced notifications, watch gaps with compaction, processor rejections). After every step the active content of every source must be allowed by the observations so far, the processor call sequence must be a legal run without duplicate application, and after faults stop the active sets must equal the latest content. Evidence over sampled histories, not a proof.",
-  "Trusts: the stated event model for inotify; the recording model processor in place of the real repository; kubernetes runs on the wall clock with an 8 s liveness bound; recorded findings (known_findings.txt) end the runs that hit them.",
+  "Trusts: the stated event model for inotify; the recording model processor in place of the real repository; kubernetes runs on the wall clock with a 25 s liveness bound per quiescence point, provider-fs-start uses the kernel's inotify with a 10 s bound; recorded findings (known_findings.txt) end the runs that hit them.",
   "DESIGN.md section 3 C18"),
-"C19": ("signer-reload + robust-sim",
+"C19": ("signer-reload + robust-sim + reload-tls + reload-httpsig + reload-redis-creds + provider-fs-conc + listener-sim + watcher-sim",
   "fault-injecting simulation with crash detection as the oracle: hot reloads of the jwt signer under the seeded scheduler with torn/invalid/unsupported key-store contents; truncated and type-confused rule sets through the real parser, processor and factory; truncated/corrupted/type-confused remote answers, malformed tokens and odd requests through the three real entry points; harness process deaths are attributed, minimised by re-execution and reported",
   "Seeded search over corrupted inputs and reload schedules; a violation is a panic escaping a load path or entry point, a panicking reload task, a dead harness process, a lost previously loaded state or a valid reload that is not applied. Evidence over sampled inputs and schedules, not a proof (the truncation offsets and confusion sites are sampled, not enumerated).",
-  "Trusts: TLS key store, http_message_signatures and trust store reloads share the key-store loader exercised here and are not driven separately; provider goroutine crashes are found by the C18 harnesses through the same process-death attribution.",
+  "Trusts: the trust store has no hot reload (its loader is driven with corrupted files); Redis itself is not run (only the reload of its credentials file); listener-sim and watcher-sim use loopback sockets / the kernel's inotify and judge outcomes within wall-clock bounds (5-15 s); a request that is not answered within 15 s counts as a violation; provider goroutine crashes are also found by the C18 harnesses through the same process-death attribution.",
   "DESIGN.md section 3 C19"),
 }
 
